@@ -17,9 +17,80 @@ from . import sym
 Z3_OPTS = {"auto_config": False, "smt.mbqi": False, "smt.ematching": True}
 
 
+def _syms(t, acc):
+    """names of the uninterpreted function symbols (and sorts' constants are ignored) occurring in a term"""
+    seen = set()
+    stack = [t]
+    while stack:
+        x = stack.pop()
+        if x.get_id() in seen:
+            continue
+        seen.add(x.get_id())
+        if z3.is_quantifier(x):
+            stack.append(x.body())
+            continue
+        if z3.is_app(x):
+            d = x.decl()
+            if d.kind() == z3.Z3_OP_UNINTERPRETED and x.num_args() > 0:
+                acc.add(d.name())
+            stack.extend(x.children())
+    return acc
+
+
+_AX_INFO = {}
+
+
+def _ax_info(a):
+    k = a.get_id()
+    if k not in _AX_INFO:
+        if z3.is_quantifier(a):
+            pats = []
+            for i in range(a.num_patterns()):
+                acc = set()
+                for ch in a.pattern(i).children():      # a (multi-)pattern is an application of `pattern` to its terms
+                    _syms(ch, acc)
+                pats.append(frozenset(acc))
+            _AX_INFO[k] = (pats, frozenset(_syms(a.body(), set())))
+        else:
+            _AX_INFO[k] = (None, frozenset(_syms(a, set())))
+    return _AX_INFO[k]
+
+
+def relevant(axioms, pc, goal):
+    """the axioms that E-matching could ever instantiate: fixpoint of `some trigger has all its symbols present`.
+    Dropping the others loses nothing for a pattern-driven proof search and keeps queries small."""
+    present = set()
+    for c in pc:
+        _syms(c, present)
+    _syms(goal, present)
+    chosen = []
+    rest = list(axioms)
+    changed = True
+    while changed:
+        changed = False
+        nxt = []
+        for a in rest:
+            pats, body = _ax_info(a)
+            if pats is None:
+                fire = bool(body & present) or not body
+            elif not pats:
+                fire = True
+            else:
+                fire = any(p <= present for p in pats)
+            if fire:
+                chosen.append(a)
+                if not body <= present:
+                    present |= body
+                    changed = True
+            else:
+                nxt.append(a)
+        rest = nxt
+    return chosen
+
+
 def to_smt2(axioms, pc, goal):
     s = z3.Solver()
-    for a in axioms:
+    for a in relevant(axioms, pc, goal):
         s.add(a)
     for c in pc:
         s.add(c)
@@ -76,8 +147,19 @@ def _work(job):
     return idx, verdict, dt, backend
 
 
-def discharge(obls, axioms, z3_ms=10000, cvc5_s=20, procs=None, axioms_lite=None):
-    """obls: list of interp.Obligation. returns list of dict(verdict, seconds, backend) aligned with obls"""
+_AXCACHE = {}
+
+
+def axioms_for(theories, heavy):
+    k = (tuple(theories), heavy)
+    if k not in _AXCACHE:
+        _AXCACHE[k] = sym.base_axioms(heavy=heavy, theories=theories)
+    return _AXCACHE[k]
+
+
+def discharge(obls, axioms=None, z3_ms=10000, cvc5_s=20, procs=None, axioms_lite=None):
+    """obls: list of interp.Obligation. returns list of dict(verdict, seconds, backend) aligned with obls.
+    Each obligation gets the core axioms, the optional theories its contract asked for and its own extra axioms."""
     jobs = []
     res = [None] * len(obls)
     for i, o in enumerate(obls):
@@ -87,8 +169,10 @@ def discharge(obls, axioms, z3_ms=10000, cvc5_s=20, procs=None, axioms_lite=None
         if z3.is_false(o.goal) and not o.pc and getattr(o, "backend_hint", None):
             res[i] = dict(verdict="refuted", seconds=0.0, backend=o.backend_hint)
             continue
-        jobs.append((i, to_smt2(axioms_lite if axioms_lite is not None else axioms, o.pc, o.goal),
-                     to_smt2(axioms, o.pc, o.goal), z3_ms, cvc5_s))
+        th = getattr(o, "theories", ()) or ()
+        extra = list(getattr(o, "extra", ()) or ())
+        jobs.append((i, to_smt2(axioms_for(th, False) + extra, o.pc, o.goal),
+                     to_smt2(axioms_for(th, True) + extra, o.pc, o.goal), z3_ms, cvc5_s))
     if jobs:
         procs = procs or min(16, os.cpu_count() or 4)
         with multiprocessing.Pool(procs) as pool:
